@@ -1,5 +1,6 @@
 """C08 — compiled programs do what the source says."""
 from checks.numlib import *
+from checks.syntaxlib import run_syntax
 
 META = {
     "text": "Spec.run (Lean) is the definition of what the source text says; theorems: rejected_not_run, cache_transparent(_seq) for every cache size and "
@@ -17,6 +18,8 @@ def run(ctx):
     ctx.cov["trusted_base"] = TRUSTED + ["digest injectivity on the scripts in use is a hypothesis of cache_transparent, not an axiom"]
     ctx.cov["partial"] = "compile_correct at bytecode level not yet proved; concurrency of a shared cached program only observed"
     ctx.l1()
+    if run_syntax(ctx):  # front end (lexer+parser) on script texts; True = it served a --replay of one of its own cases
+        return
     r = run_numscript(ctx, 2500 if ctx.quick else 100000)
     if r is None:
         return
